@@ -49,7 +49,7 @@ static inline char verif_lower(char c) { return ('A' <= c && c <= 'Z') ? (char)(
 static inline int strncmp(const char* a, const char* b, size_t n)
 {
    __CPROVER_assert(n <= 12, "literal strncmp model covers n <= 12");
-   g_ncalls++;
+   g_ncalls = 1;
    if(n == 11) g_pnoff = (int)(a - gp_line); else g_ptoff = (int)(a - gp_line);
 #define FOLD(c) (c)
    CMP_ALL
@@ -60,7 +60,7 @@ static inline int strncmp(const char* a, const char* b, size_t n)
 static inline int strncasecmp(const char* a, const char* b, size_t n)
 {
    __CPROVER_assert(n <= 12, "literal strncasecmp model covers n <= 12");
-   g_ncalls++;
+   g_ncalls = 1;
    g_pvoff = (int)(a - gp_line);
 #define FOLD(c) verif_lower(c)
    CMP_ALL
@@ -76,7 +76,7 @@ static inline long strtol(const char* s, char** end, int base)
 {
    CSTRING_ARG(s);
    __CPROVER_assert(end == nullptr && (base == 4 || base == 5), "strtol stub: only the calls of the slice");
-   g_ncalls++;
+   g_ncalls = 1;
    g_pvoff = (int)(s - gp_line);
    return base == 4 ? g_strtol4 : g_strtol5;
 }
@@ -91,19 +91,19 @@ namespace std
 {
 static inline int stoi(const char* s)
 {
-   CSTRING_ARG(s); g_ncalls++; g_pvoff = (int)(s - gp_line);
+   CSTRING_ARG(s); g_ncalls = 1; g_pvoff = (int)(s - gp_line);
    if(!g_conv_ok) CONV_THROW("std::stoi")
    return g_stoi_ret;
 }
 static inline double stod(const char* s)
 {
-   CSTRING_ARG(s); g_ncalls++; g_pvoff = (int)(s - gp_line);
+   CSTRING_ARG(s); g_ncalls = 1; g_pvoff = (int)(s - gp_line);
    if(!g_conv_ok) CONV_THROW("std::stod")
    return g_stod_ret;
 }
 static inline unsigned long stoul(const char* s)
 {
-   CSTRING_ARG(s); g_ncalls++; g_pvoff = (int)(s - gp_line);
+   CSTRING_ARG(s); g_ncalls = 1; g_pvoff = (int)(s - gp_line);
    if(!g_conv_ok) CONV_THROW("std::stoul")
    return g_stoul_ret;
 }
@@ -137,7 +137,7 @@ static inline int strncmp(const char* a, NameRef b, size_t n)
 {
    CSTRING_ARG(a);
    __CPROVER_assert(n == SPX_SET_MAX_LINE_LEN, "name compare uses SPX_SET_MAX_LINE_LEN");
-   g_ncalls++;
+   g_ncalls = 1;
    g_pnoff = (int)(a - gp_line);
    const unsigned char* m = b.kind == 0 ? gp_mb : (b.kind == 1 ? gp_mi : gp_mr);
    return m[b.idx] ? 0 : 1;
